@@ -119,3 +119,44 @@ pub fn from_bits_flip(a: &[&str]) -> String {
 pub fn bitmap_new(bits: Vec<bool>, w: usize) -> Bitmap<bool> {
     Bitmap::new(bits, w)
 }
+
+/// path <width> <bits>: Bitmap::new(bits, width).path()
+pub fn path(a: &[&str]) -> String {
+    use datamatrix::placement::PathSegment::*;
+    let w = int(a[0]);
+    let bm = Bitmap::new(bools(a[1]), w);
+    let p = bm.path();
+    if p.is_empty() {
+        return "ok path=-".to_string();
+    }
+    let v: Vec<String> = p
+        .iter()
+        .map(|s| match s {
+            Move(dx, dy) => format!("M{}:{}", dx, dy),
+            Horizontal(d) => format!("H{}", d),
+            Vertical(d) => format!("V{}", d),
+            Close => "Z".to_string(),
+        })
+        .collect();
+    format!("ok path={}", v.join(","))
+}
+
+/// pixels <width> <bits>
+pub fn pixels(a: &[&str]) -> String {
+    let w = int(a[0]);
+    let bm = Bitmap::new(bools(a[1]), w);
+    let v: Vec<String> = bm.pixels().map(|(x, y)| format!("{}:{}", x, y)).collect();
+    if v.is_empty() {
+        "ok -".to_string()
+    } else {
+        format!("ok {}", v.join(","))
+    }
+}
+
+/// unicode <width> <bits>: code points of Bitmap::unicode()
+pub fn unicode(a: &[&str]) -> String {
+    let w = int(a[0]);
+    let bm = Bitmap::new(bools(a[1]), w);
+    let v: Vec<u32> = bm.unicode().chars().map(|c| c as u32).collect();
+    format!("ok {}", show(&v))
+}
